@@ -286,7 +286,7 @@ int main(int argc, char** argv)
         {"timed_mutex_relock", timed_mutex_pair<1>, 2, 3, 0.1, 0.1, 1, "F-addr: timed_mutex + both tasks' state words; fixed program: owner unlocks, re-locks and holds across the timed waiter's deadline", nullptr, nullptr},
         {"timed_mutex_pair", timed_mutex_pair<0>, 1, 2, 0.1, 0.1, 1, "F-addr: timed_mutex + both tasks' thread_data; early-timeout deviation = clock jump to B's deadline", nullptr, nullptr},
         {"recursive_mutex_2", recursive_tasks<pika::detail::recursive_mutex_impl<pika::mutex>, 2>, 1, 2, 0.1, 0.1, 1, "F-addr: recursive_mutex_impl<pika::mutex> + thread_data", nullptr, nullptr},
-        {"recursive_spin_2", recursive_tasks<pika::detail::recursive_mutex_impl<>, 2>, 1, 2, 0.1, 0.1, 1, "F-addr: recursive_mutex (recursion_count, locking_context, inner mutex) + thread_data", nullptr, nullptr},
+        {"recursive_spin_2", recursive_tasks<pika::detail::recursive_mutex_impl<>, 2>, 2, 3, 0.3, 0.1, 1, "F-addr: recursive_mutex (recursion_count, locking_context, inner mutex) + thread_data", nullptr, nullptr},
         {"spinlock_2x1", mutex_tasks<pika::concurrency::detail::spinlock, 2, 1, 3>, 1, 3, 0.05, 0.05, 1, "F-addr: concurrency::detail::spinlock + thread_data", nullptr, nullptr},
         {"misuse", misuse, 1, 2, 0.1, 0.05, 1, focus, nullptr, nullptr},
         {"ts_spinlock_2x1", mutex_tasks<pika::detail::spinlock, 2, 1, 3>, 1, 3, 0.05, 0.05, 1, "F-addr: pika::detail::spinlock (thread_support) + thread_data", nullptr, nullptr},
